@@ -1127,6 +1127,137 @@ def cmpOp (op : String) (a b : Rat) : Bool :=
   if op = "Gt" then decide (a > b) else if op = "GtE" then decide (a ≥ b)
   else if op = "Lt" then decide (a < b) else if op = "LtE" then decide (a ≤ b) else false
 
+/-! ## Python's `sorted()` on parameter values (Phase 4, goal 2): value classes, `<` with its `TypeError`s, and
+CPython 3.12's `list.sort` for fewer than 64 elements (`count_run` + `binarysort`; no merging happens below 64) -/
+
+/-- a hashable parameter value as far as ordering is concerned: `None`; bool/int/float (one numeric class, compared by
+value); `str` (code points); `frozenset` of ints (`<` is proper subset: never raises, only a partial order) -/
+inductive PyVal
+  | none
+  | num (q : Rat)
+  | str (s : List Nat)
+  | fset (l : List Nat)
+  deriving DecidableEq, Repr
+
+inductive PyClass
+  | none | num | str | fset
+  deriving DecidableEq, Repr
+
+def pyClass : PyVal → PyClass
+  | .none => .none
+  | .num _ => .num
+  | .str _ => .str
+  | .fset _ => .fset
+
+/-- `a < b` as Python evaluates it: `TypeError` across classes and for `None < None` -/
+def pyLt : PyVal → PyVal → Except Err Bool
+  | .num a, .num b => .ok (decide (a < b))
+  | .str a, .str b => .ok (decide (a < b))
+  | .fset a, .fset b => .ok (a.all (fun x => b.contains x) && b.any (fun x => !a.contains x))
+  | _, _ => .error .typeError
+
+/-- the binary search of `binarysort`: `do { p = l + ((r-l)>>1); if pivot < *p: r = p else l = p+1 } while (l < r)` -/
+def pyBsearch (pivot : PyVal) (pre : List PyVal) : Nat → Nat → Nat → Except Err Nat
+  | 0, l, _ => .ok l
+  | f + 1, l, r =>
+    if l < r then
+      match pre[l + (r - l) / 2]? with
+      | none => .error .indexError
+      | some q =>
+        match pyLt pivot q with
+        | .error e => .error e
+        | .ok true => pyBsearch pivot pre f l (l + (r - l) / 2)
+        | .ok false => pyBsearch pivot pre f (l + (r - l) / 2 + 1) r
+    else .ok l
+
+/-- `binarysort`: every remaining element is inserted into the sorted prefix at the position the binary search finds -/
+def pyBinSort : List PyVal → List PyVal → Except Err (List PyVal)
+  | pre, [] => .ok pre
+  | pre, v :: rest =>
+    match pyBsearch v pre pre.length 0 pre.length with
+    | .error e => .error e
+    | .ok k => pyBinSort (pre.take k ++ v :: pre.drop k) rest
+
+/-- `count_run`, ascending case: extend while `not (next < last)` -/
+def pyRunAsc : PyVal → List PyVal → Except Err (List PyVal × List PyVal)
+  | _, [] => .ok ([], [])
+  | last, v :: vs =>
+    match pyLt v last with
+    | .error e => .error e
+    | .ok true => .ok ([], v :: vs)
+    | .ok false =>
+      match pyRunAsc v vs with
+      | .error e => .error e
+      | .ok (r, rest) => .ok (v :: r, rest)
+
+/-- `count_run`, strictly descending case: extend while `next < last` -/
+def pyRunDesc : PyVal → List PyVal → Except Err (List PyVal × List PyVal)
+  | _, [] => .ok ([], [])
+  | last, v :: vs =>
+    match pyLt v last with
+    | .error e => .error e
+    | .ok false => .ok ([], v :: vs)
+    | .ok true =>
+      match pyRunDesc v vs with
+      | .error e => .error e
+      | .ok (r, rest) => .ok (v :: r, rest)
+
+/-- `sorted(l)` for `len(l) < 64`: the initial run (reversed when strictly descending), then binary insertion of the rest -/
+def pySorted : List PyVal → Except Err (List PyVal)
+  | [] => .ok []
+  | [a] => .ok [a]
+  | a :: b :: rest =>
+    match pyLt b a with
+    | .error e => .error e
+    | .ok true =>
+      match pyRunDesc b rest with
+      | .error e => .error e
+      | .ok (r, rest') => pyBinSort (a :: b :: r).reverse rest'
+    | .ok false =>
+      match pyRunAsc b rest with
+      | .error e => .error e
+      | .ok (r, rest') => pyBinSort (a :: b :: r) rest'
+
+/-- `a <= b` in the order `sorted` realises: `not (b < a)` -/
+def pyLe (a b : PyVal) : Prop := pyLt b a = .ok false
+
+/-! ## incrementally built interaction tables (round g): in-order `Table.insert` with the cached group boundaries -/
+
+/-- an indexed interaction table with its cache of group boundaries (`Table._lohis`, here: the cached groups themselves) -/
+structure ITable where
+  rows : List IRow
+  cache : Option (List (Triple × List IRow))
+
+inductive IncOp
+  | ins (batch : List IRow)   -- `Table.insert(batch)`, batch in index order after the rows already there
+  | look                      -- a read-only analysis call (`where`, `groupby`, `where_fin`, `raw_learners`): fills the cache
+
+/-- the groups every analysis call works from: the cached ones when there are any -/
+def ITable.groups (t : ITable) : List (Triple × List IRow) :=
+  match t.cache with
+  | some g => g
+  | none => runs t.rows
+
+/-- one operation; `clear = true` is the code (`if self._lohis: self._lohis = {}` on every insert), `clear = false` the
+variant that keeps the cache when the rows arrive in index order (seeded change C18-gm4) -/
+def ITable.step (clear : Bool) (t : ITable) : IncOp → ITable
+  | .ins batch => { rows := t.rows ++ batch, cache := if clear then none else t.cache }
+  | .look => { rows := t.rows, cache := some t.groups }
+
+def runInc (clear : Bool) : List IncOp → ITable → ITable
+  | [], t => t
+  | op :: ops, t => runInc clear ops (t.step clear op)
+
+/-- all rows a schedule inserts, in order: the rows of the Result built in one go -/
+def insertedRows : List IncOp → List IRow
+  | [] => []
+  | .ins b :: ops => b ++ insertedRows ops
+  | .look :: ops => insertedRows ops
+
+/-- witness schedule for the stale cache: one evaluation, a look, a second evaluation -/
+def cexInc : List IncOp :=
+  [.ins [{ e := 0, l := 0, v := 0, idx := 1, y := 1 }], .look, .ins [{ e := 1, l := 0, v := 0, idx := 1, y := 2 }]]
+
 /-! ## chains of `where_fin` / `where` -/
 
 /-- a well-formed Result: sorted interaction table (`Result.__init__` indexes it), primary keys, per-evaluation
